@@ -415,7 +415,7 @@ class _Continue(Exception):
 
 
 ELEMENTWISE = {"cos", "sin", "tan", "exp", "arccos", "arcsin", "arctan", "sqrt", "abs", "absolute",
-               "degrees", "radians", "square", "log"}
+               "degrees", "radians", "square", "log", "round", "rint", "around", "floor", "ceil", "fix", "fabs"}
 
 
 class Evaluator:
@@ -425,6 +425,7 @@ class Evaluator:
         self.events = []                  # ordered (kind, name, [arg values]) of module / import / linalg calls on the path
         self.import_values = {}           # dotted imported name -> value (e.g. "xfab.CHECKS.activated": True)
         self.import_values_at_definition = None   # the same at import time: default arguments are evaluated then
+        self.threshold_max = Fraction(1, 1000)   # literals up to this size are tolerances
         self.threshold_policy = None      # (quantity, small positive threshold, node) -> True (inside the band) | False | None
         self.sign_policy = sign_policy    # (canonical difference, node) -> -1 | 0 | 1 | None  (may raise NeedSign)
         self.inline = inline              # True: every module-level function; or a set of names
@@ -1026,7 +1027,7 @@ class Evaluator:
                 # `quantity < small positive literal` (either orientation): a tolerance band
                 sa, sb = scalar(a), scalar(b)
                 for q, t, swap in ((sa, sb, False), (sb, sa, True)):
-                    if t.is_const() and not q.is_const() and 0 < t.const_value() <= Fraction(1, 1000):
+                    if t.is_const() and not q.is_const() and 0 < t.const_value() <= self.threshold_max:
                         below = self.threshold_policy(q, t.const_value(), node)
                         if below is not None:
                             sg = -1 if below else 1
@@ -1199,9 +1200,15 @@ class Evaluator:
     def e_Call(self, node, env):
         f = self.eval(node.func, env)
         args = [self.eval(a, env) for a in node.args]
-        kwargs = {k.arg: self.eval(k.value, env) for k in node.keywords}
-        if any(k.arg is None for k in node.keywords):
-            raise AnalysisError("E3: **kwargs call (line %d)" % node.lineno)
+        kwargs = {}
+        for k in node.keywords:
+            v_ = self.eval(k.value, env)
+            if k.arg is None:
+                if not isinstance(v_, dict) or not all(isinstance(x_, str) for x_ in v_):
+                    raise AnalysisError("E3: ** of a value that is not a dictionary of names (line %d)" % node.lineno)
+                kwargs.update(v_)
+            else:
+                kwargs[k.arg] = v_
         if isinstance(f, tuple) and f:
             kind = f[0]
             if kind == "function":
@@ -1501,10 +1508,17 @@ class Evaluator:
 
     def apply_unary(self, fname, x, node):
         x = scalar(x)
-        if fname in ("abs", "absolute"):
+        if fname in ("abs", "absolute", "fabs"):
             if x.is_const():
                 return Rat.const(abs(x.const_value()))
             return func_atom("abs", x)
+        if fname in ("round", "rint", "around", "floor", "ceil", "fix"):
+            import math as _m
+            canon = "round" if fname in ("round", "rint", "around") else fname
+            if x.is_const():
+                c = x.const_value()
+                return Rat.const({"round": round, "floor": _m.floor, "ceil": _m.ceil, "fix": _m.trunc}[canon](c))
+            return func_atom(canon, x)
         if fname == "sqrt":
             return sqrt_of(x)
         if fname == "square":
@@ -1561,6 +1575,43 @@ class Evaluator:
                     return [rec(x) for x in d] if isinstance(d, list) else self.apply_unary(name, d, node)
                 return Arr(rec(A.data))
             return self.apply_unary(name, v, node)
+        if name in ("mod", "fmod", "remainder", "maximum", "minimum") and len(args) == 2 and not kwargs \
+                and not any(isinstance(a_, Opaque) and a_.shape is None for a_ in args):
+            canon = {"remainder": "mod", "maximum": "max", "minimum": "min"}.get(name, name)
+
+            def f2(x_, y_):
+                x_, y_ = scalar(x_), scalar(y_)
+                if x_.is_const() and y_.is_const():
+                    cx, cy = x_.const_value(), y_.const_value()
+                    if canon == "mod" and cy != 0:
+                        return Rat.const(cx % cy)
+                    if canon in ("max", "min"):
+                        return Rat.const(max(cx, cy) if canon == "max" else min(cx, cy))
+                return func_atom(canon, x_, y_)
+            A = args[0] if isinstance(args[0], Arr) else (materialise(args[0]) if isinstance(args[0], (list, tuple, Opaque)) else None)
+            B = args[1] if isinstance(args[1], Arr) else (materialise(args[1]) if isinstance(args[1], (list, tuple, Opaque)) else None)
+
+            def rec2(x_, y_):
+                if isinstance(x_, list) and isinstance(y_, list):
+                    if len(x_) != len(y_):
+                        raise AnalysisError("E3: %s of incompatible shapes (line %d)" % (name, node.lineno))
+                    return [rec2(p_, q_) for p_, q_ in zip(x_, y_)]
+                if isinstance(x_, list):
+                    return [rec2(p_, y_) for p_ in x_]
+                if isinstance(y_, list):
+                    return [rec2(x_, q_) for q_ in y_]
+                return f2(x_, y_)
+            r_ = rec2(A.data if A is not None else args[0], B.data if B is not None else args[1])
+            return Arr(r_) if isinstance(r_, list) else r_
+        if name in ("max", "min", "amax", "amin") and len(args) == 1 and not kwargs:
+            A = args[0] if isinstance(args[0], Arr) else (materialise(args[0]) if isinstance(args[0], (list, tuple)) else None)
+            if A is not None and A.shape != () and 0 not in A.shape:
+                vals = [scalar(x_) for x_ in A.flat()]
+                canon = "max" if name in ("max", "amax") else "min"
+                if all(v_.is_const() for v_ in vals):
+                    cs = [v_.const_value() for v_ in vals]
+                    return Rat.const(max(cs) if canon == "max" else min(cs))
+                return func_atom(canon, *vals)
         if name == "arctan2" and len(args) == 2:
             return func_atom("arctan2", scalar(args[0]), scalar(args[1]))
         if name in ("array", "asarray", "ascontiguousarray", "asfarray") and 1 <= len(args) <= 2:
